@@ -95,6 +95,7 @@ func globalCase(c *fw.Ctx, r *fw.Rand, idx int) {
 	}
 	wg.Wait()
 	alive := map[int]bool{}
+	removed := map[int]bool{} // taken out of the peerset (allocations untouched: re-pinning is off)
 	defer func() {
 		var cw sync.WaitGroup
 		for i, p := range peers {
@@ -201,9 +202,34 @@ func globalCase(c *fw.Ctx, r *fw.Rand, idx int) {
 			}
 		}
 		sort.Strings(keys)
+		// members, plus allocated peers that are no longer members (removed without re-pinning)
 		var want []string
-		for j := range ids {
-			want = append(want, fmt.Sprint(j))
+		for j, id := range ids {
+			if !removed[j] {
+				want = append(want, fmt.Sprint(j))
+				continue
+			}
+			if pin != nil {
+				for _, a := range pin.Allocations {
+					if a == id {
+						want = append(want, fmt.Sprint(j))
+					}
+				}
+			}
+		}
+		if view == "statusall" && strings.Join(keys, ",") != strings.Join(want, ",") {
+			// the listing asks members only: an allocated peer that was taken out of the
+			// peerset is not in it, while Status(cid) reports it (known finding, own key)
+			var members []string
+			for j := range ids {
+				if !removed[j] {
+					members = append(members, fmt.Sprint(j))
+				}
+			}
+			if strings.Join(keys, ",") == strings.Join(members, ",") {
+				fail("C06/global/statusall/allocated-peer-outside-peerset-not-listed", fmt.Sprintf("at p%d, c%d: the listing shows {%s}; the allocated peers and members are {%s}", at, k, strings.Join(keys, ","), strings.Join(want, ",")), nil)
+				return
+			}
 		}
 		if strings.Join(keys, ",") != strings.Join(want, ",") {
 			fail("C06/global/"+view+"/members-missing-or-foreign", fmt.Sprintf("at p%d, c%d: the peer map lists {%s}, the members are {%s}", at, k, strings.Join(keys, ","), strings.Join(want, ",")), nil)
@@ -310,6 +336,42 @@ func globalCase(c *fw.Ctx, r *fw.Rand, idx int) {
 	}
 	time.Sleep(300 * time.Millisecond)
 	checkAll("one-down")
+	// the stopped member is taken out of the peerset while its allocations stay (re-pinning
+	// is off by default): still an allocated peer, still unreachable
+	if n >= 3 && r.Bool() {
+		at := -1
+		for i := range peers {
+			if alive[i] {
+				at = i
+				break
+			}
+		}
+		rctx, cancel := context.WithTimeout(ctx, 30*time.Second)
+		err := peers[at].Node.Cluster.PeerRemove(rctx, ids[victim])
+		cancel()
+		history = append(history, fmt.Sprintf("p%d removed from the peerset at p%d err=%v", victim, at, err))
+		if err == nil {
+			removed[victim] = true
+			ok := waitFor(20*time.Second, func() bool {
+				for i, p := range peers {
+					if !alive[i] {
+						continue
+					}
+					ps, err := p.Node.Consensus.Peers(ctx)
+					if err != nil || len(ps) != n-1 {
+						return false
+					}
+				}
+				return true
+			})
+			if ok {
+				c.Cover("global/member-removed-from-peerset")
+				checkAll("one-removed")
+			}
+		}
+		c.Sample(map[string]interface{}{"family": "global", "peers": n, "history": history})
+		return
+	}
 	// a second member goes away (the views are reads: no quorum needed)
 	if n >= 3 {
 		second := (victim + 1 + r.Intn(n-1)) % n
